@@ -12,7 +12,7 @@ from dataclasses import dataclass, field
 
 from happysimulator.core.entity import Entity
 from happysimulator.core.event import Event
-from happysimulator.core.sim_future import SimFuture
+from happysimulator.core.sim_future import SimFuture, _get_active_heap
 
 logger = logging.getLogger(__name__)
 
@@ -279,10 +279,20 @@ class DistributedLock(Entity):
             if state.lease_event:
                 state.lease_event.cancel()
             state.lease_event = expiry_event
-            # We can't directly push to heap — return it for scheduling
-            # The caller should schedule this event
-            # For direct API usage (non-event-driven), we store it
-            self._pending_expiry = expiry_event
+            # While a simulation is running the lock manager schedules its own
+            # lease expiry on the active heap (the way SimFuture.resolve
+            # schedules continuations), at the instant of the grant. Leaving
+            # it for the caller to pick up meant a waiter that noticed its
+            # grant late scheduled an expiry stamped in the past (discarded by
+            # the engine, so the lease never expired), and a grant nobody
+            # polled for never expired at all.
+            # Outside a run (direct API usage) it is stored for the caller.
+            heap = _get_active_heap()
+            if heap is not None:
+                heap.push(expiry_event)
+                self._pending_expiry = None
+            else:
+                self._pending_expiry = expiry_event
 
         grant = LockGrant(
             lock_name=lock_name,
